@@ -43,8 +43,11 @@ OPEN_STATEMENTS = [
     '(expectation_cbs_sound, summed over the dictionary; with expectation_vector_is_list for the vector input); for other '
     'operators the function ignores the remaining terms (off-diagonal terms have zero diagonal elements; diagonal terms with '
     'three or more bodies, or not normal-ordered, are outside the documented contract) - covered by the expectation stream only',
-    's_squared = S-S+ + Sz(Sz+1), sx, sy, s_plus, s_minus: covered by the special-operators stream (Spec formula equality on all '
-    'basis states); sz and the number operator are proved diagonal (sz_operator_diag, number_operator_diag)',
+    'spin operators: proved for every number of sites (tolerance-free Model): sx = (s_plus + s_minus)/2 and '
+    'sy = (s_plus - s_minus)/(2i) as operators (sx_sy_ladder), s_squared = S-.S+ + Sz.(Sz + 1) as the composition of the '
+    'Model operators (s_squared_composition), sz and the number operator diagonal (sz_operator_diag, number_operator_diag); '
+    'not proved: the commutation relations [S+, S-] = 2 Sz, [Sz, S+-] = +-S+- and the explicit action of s_plus / s_minus on a '
+    'basis state; the special-operators stream checks the Spec formula of every operator on all basis states for 0..3 sites (0..4 in the thorough tier)',
     'jw_get_ground_state_at_particle_number: float contract over eigsh / eigh only; observation outside the property: it raises '
     'ArpackError when the operator vanishes on a sector of dimension >= 3 (all-zero matrix given to eigsh); those inputs are skipped',
 ]
